@@ -8,7 +8,7 @@ EXTRA = {"C03-m2": ["C12"], "C03-m3": ["C01"], "C05-m1": ["C01"], "C05-m2": ["C0
          "C09-m4": ["C04"], "C03-m4": ["C17"], "C13-m5": ["C04"], "C06-m5": ["C17"], "C04-m4": ["C09"]}
 pat = re.compile(sys.argv[1]) if len(sys.argv) > 1 else None
 claimed = [c["property_id"] for c in json.load(open("/verif/MANIFEST.json"))["checks"]]
-res_path = os.path.join(SEEDS, "results.json")
+res_path = os.environ.get("SWEEP_RESULTS") or os.path.join(SEEDS, "results.json")
 results = json.load(open(res_path)) if os.path.exists(res_path) else {}
 for sid in sorted(os.listdir(SEEDS)):
     d = os.path.join(SEEDS, sid)
